@@ -331,9 +331,9 @@ func c09GroupGen(g *hx.Gen) {
 		}
 	}
 	// random: up to 12 lines over all valid directive names
-	N := 1500
+	N := 8000
 	if g.Thorough() {
-		N = 30000
+		N = 100000
 	}
 	for it := 0; it < N; it++ {
 		n := 1 + g.Rng.Intn(12)
@@ -502,9 +502,9 @@ func c09Battery() []c09Req {
 	}
 }
 
-// c09Start loads the block through casket.Start and returns the compiled handler chain (directive
-// names, outside in) and the answers to the battery.
-func c09Start(lines []c09Line, logName string) (chain string, answers []string, err error) {
+// c09Load starts the block through the real loader (casket.Start) and returns the http server
+// it built and a stop function.
+func c09Load(lines []c09Line, logName string) (*httpserver.Server, func(), error) {
 	var cf strings.Builder
 	cf.WriteString("http://127.0.0.1:0 {\n")
 	for _, l := range lines {
@@ -517,12 +517,12 @@ func c09Start(lines []c09Line, logName string) (chain string, answers []string, 
 	cf.WriteString("}\n")
 	inst, err := casket.Start(casket.CasketfileInput{Filepath: "Casketfile", Contents: []byte(cf.String()), ServerTypeName: "http"})
 	if err != nil {
-		return "", nil, err
+		return nil, nil, err
 	}
-	defer func() {
+	stop := func() {
 		inst.ShutdownCallbacks()
 		inst.Stop()
-	}()
+	}
 	var srv *httpserver.Server
 	for _, sl := range inst.Servers() {
 		if s, ok := casket.VerifServer(sl).(*httpserver.Server); ok {
@@ -530,8 +530,44 @@ func c09Start(lines []c09Line, logName string) (chain string, answers []string, 
 		}
 	}
 	if srv == nil {
-		return "", nil, fmt.Errorf("no http server in the instance")
+		stop()
+		return nil, nil, fmt.Errorf("no http server in the instance")
 	}
+	return srv, stop, nil
+}
+
+// c09Client is the in-process client side: an httptest recorder that, like net/http's own
+// response writer, can be asked for close notifications (the proxy does).
+type c09Client struct {
+	*httptest.ResponseRecorder
+	closed chan bool
+}
+
+func (c c09Client) CloseNotify() <-chan bool { return c.closed }
+
+func c09Do(srv *httpserver.Server, rq c09Req) *httptest.ResponseRecorder {
+	var body io.Reader
+	if rq.body != "" {
+		body = strings.NewReader(rq.body)
+	}
+	req := httptest.NewRequest(rq.method, "http://127.0.0.1"+rq.target, body)
+	req.RequestURI = rq.target
+	for _, h := range rq.hdr {
+		req.Header.Set(h[0], h[1])
+	}
+	rec := httptest.NewRecorder()
+	srv.ServeHTTP(c09Client{rec, make(chan bool)}, req)
+	return rec
+}
+
+// c09Start loads the block and returns the compiled handler chain (directive names, outside in)
+// and the answers to the battery.
+func c09Start(lines []c09Line, logName string) (chain string, answers []string, err error) {
+	srv, stop, err := c09Load(lines, logName)
+	if err != nil {
+		return "", nil, err
+	}
+	defer stop()
 	sites := httpserver.VerifSites(srv)
 	if len(sites) != 1 {
 		return "", nil, fmt.Errorf("%d sites", len(sites))
@@ -541,18 +577,7 @@ func c09Start(lines []c09Line, logName string) (chain string, answers []string, 
 		names = append(names, c09HandlerName(mw(httpserver.EmptyNext)))
 	}
 	for _, rq := range c09Battery() {
-		var body io.Reader
-		if rq.body != "" {
-			body = strings.NewReader(rq.body)
-		}
-		req := httptest.NewRequest(rq.method, "http://127.0.0.1"+rq.target, body)
-		req.RequestURI = rq.target
-		for _, h := range rq.hdr {
-			req.Header.Set(h[0], h[1])
-		}
-		rec := httptest.NewRecorder()
-		srv.ServeHTTP(rec, req)
-		answers = append(answers, c09Digest(rec))
+		answers = append(answers, c09Digest(c09Do(srv, rq)))
 	}
 	return strings.Join(names, ","), answers, nil
 }
@@ -733,9 +758,9 @@ func c09PermGen(g *hx.Gen) {
 		}
 	}
 	// 2. seeded random subsets of up to 9 lines in a random written order, random stable reordering
-	N := 220
+	N := 1000
 	if g.Thorough() {
-		N = 4000
+		N = 20000
 	}
 	for it := 0; it < N; it++ {
 		n := 2 + g.Rng.Intn(8)
@@ -758,7 +783,102 @@ func c09PermGen(g *hx.Gen) {
 	}
 }
 
+// ---------------------------------------------------------------------------------------------
+// c09.pairs: the documented relative order of directive pairs, probed on the running server.
+//   0 scenario   1 written order: 0 = outer directive's line first, 1 = inner first
+//   out = what the probe observed (a status code, or 1/0 for "present"/"absent")
+// The model predicts the observation from the position of the two directives in the regenerated
+// list; the judge demands the documented one.
+// ---------------------------------------------------------------------------------------------
+
+type c09Scenario struct {
+	name         string
+	outer, inner string // the directive documented as outer, and the inner one
+	lines        [2]string
+	probe        c09Req
+	observe      func(rec *httptest.ResponseRecorder, logFile string) string
+}
+
+func c09Scenarios() []c09Scenario {
+	status := func(rec *httptest.ResponseRecorder, _ string) string { return strconv.Itoa(rec.Code) }
+	flag := func(b bool) string {
+		if b {
+			return "1"
+		}
+		return "0"
+	}
+	return []c09Scenario{
+		{"rewrite-before-basicauth", "rewrite", "basicauth", [2]string{"rewrite /open /secret/s.txt", "basicauth /secret user pass"},
+			c09Req{"GET", "/open", nil, ""}, status},
+		{"basicauth-before-proxy", "basicauth", "proxy", [2]string{"basicauth /secret user pass", "proxy /secret/api @BACKEND@"},
+			c09Req{"GET", "/secret/api/e", nil, ""}, status},
+		{"redir-before-browse", "redir", "browse", [2]string{"redir /dir/ /a.txt 302", "browse /dir"},
+			c09Req{"GET", "/dir/", nil, ""}, status},
+		{"internal-before-browse", "internal", "browse", [2]string{"internal /internal", "browse /internal"},
+			c09Req{"GET", "/internal/", nil, ""}, status},
+		{"basicauth-before-markdown", "basicauth", "markdown", [2]string{"basicauth /md user pass", "markdown /md"},
+			c09Req{"GET", "/md/doc.md", nil, ""}, status},
+		{"header-around-proxy", "header", "proxy", [2]string{"header /api X-A one", "proxy /api @BACKEND@"},
+			c09Req{"GET", "/api/x", nil, ""},
+			func(rec *httptest.ResponseRecorder, _ string) string { return flag(rec.Header().Get("X-A") == "one") }},
+		{"errors-around-status", "errors", "status", [2]string{"errors {\n\t404 @ROOT@/404.html\n}", "status 404 /sub/hidden"},
+			c09Req{"GET", "/sub/hidden/h.txt", nil, ""},
+			func(rec *httptest.ResponseRecorder, _ string) string {
+				return flag(strings.Contains(rec.Body.String(), "custom not found page"))
+			}},
+		{"log-around-proxy", "log", "proxy", [2]string{"log /api @LOG@ \"{status}\"", "proxy /api @BACKEND@"},
+			c09Req{"GET", "/api/x", nil, ""},
+			func(_ *httptest.ResponseRecorder, logFile string) string {
+				b, _ := os.ReadFile(logFile)
+				return flag(strings.Contains(string(b), "200"))
+			}},
+		{"gzip-around-proxy", "gzip", "proxy", [2]string{"gzip {\n\tmin_length 1\n}", "proxy /api @BACKEND@"},
+			c09Req{"GET", "/api/x", [][2]string{{"Accept-Encoding", "gzip"}}, ""},
+			func(rec *httptest.ResponseRecorder, _ string) string { return flag(rec.Header().Get("Content-Encoding") == "gzip") }},
+	}
+}
+
+func c09PairsEval(f []string) (string, []string) {
+	if len(f) != 2 {
+		return "bad-case", nil
+	}
+	if err := c09Setup(); err != nil {
+		return "setup-error:" + err.Error(), nil
+	}
+	for _, sc := range c09Scenarios() {
+		if sc.name != f[0] {
+			continue
+		}
+		lines := []c09Line{c09Pool[0], {sc.outer, []string{sc.lines[0]}}, {sc.inner, []string{sc.lines[1]}}}
+		if f[1] == "1" {
+			lines[1], lines[2] = lines[2], lines[1]
+		}
+		logName := "pairs-" + sc.name + "-" + f[1] + ".log"
+		os.Remove(filepath.Join(c09Root, logName))
+		srv, stop, err := c09Load(lines, logName)
+		if err != nil {
+			return "start-error:" + err.Error(), nil
+		}
+		rec := c09Do(srv, sc.probe)
+		stop() // closes the log
+		if os.Getenv("VERIF_C09_DUMP") != "" {
+			b, err := os.ReadFile(filepath.Join(c09Root, logName))
+			fmt.Fprintf(os.Stderr, "code=%d hdr=%v body=%q log=%q err=%v\n", rec.Code, rec.Header(), rec.Body.String(), b, err)
+		}
+		return sc.observe(rec, filepath.Join(c09Root, logName)), []string{sc.name, "written-order-" + f[1]}
+	}
+	return "bad-case:unknown scenario", nil
+}
+
+func c09PairsGen(g *hx.Gen) {
+	for _, sc := range c09Scenarios() {
+		g.Case(sc.name, "0")
+		g.Case(sc.name, "1")
+	}
+}
+
 func init() {
+	hx.Register(&hx.Stream{ID: "C09", Name: "c09.pairs", Gen: c09PairsGen, Eval: c09PairsEval, Serial: true, Teardown: c09Teardown})
 	hx.Register(&hx.Stream{ID: "C09", Name: "c09.directives", Gen: func(g *hx.Gen) { g.Case("http") }, Eval: c09DirectivesEval})
 	hx.Register(&hx.Stream{ID: "C09", Name: "c09.group", Gen: c09GroupGen, Eval: c09GroupEval})
 	hx.Register(&hx.Stream{ID: "C09", Name: "c09.perm", Gen: c09PermGen, Eval: c09PermEval, Serial: true,
